@@ -294,7 +294,7 @@ def r3_index(rep, ctx):
 def r4_curve(rep, ctx):
     m = ctx.model
     m.cls("Curve")
-    chk = m.method("Curve", "_CheckImageAndDomainLength")
+    chk = m.method("Curve", "_CheckImageAndDomainLength", or_module_function=True)
     cfg = CFG(chk.node)
     res = Resolver(m, chk)
     ok = False
@@ -308,7 +308,7 @@ def r4_curve(rep, ctx):
                     ps = {s[2] for s in walk(t[2][0]) if s[0] == "param"}
                     return ps
                 return set()
-            if {frozenset(len_of(l)), frozenset(len_of(r))} == {frozenset({chk.params[1]}), frozenset({chk.params[2]})}:
+            if {frozenset(len_of(l)), frozenset(len_of(r))} == {frozenset({chk.params[-2]}), frozenset({chk.params[-1]})} and len(chk.params) >= 2:
                 differ = "T" if isinstance(e.ops[0], ast.NotEq) else "F"
                 same = "F" if differ == "T" else "T"
                 if not _raises_value_error(cfg, nid, differ):
@@ -337,7 +337,7 @@ def r4_curve(rep, ctx):
             S = c2.node_of(st)
             okc = False
             for c in own_nodes(fn.node):
-                if isinstance(c, ast.Call) and isinstance(c.func, ast.Attribute) and c.func.attr == "_CheckImageAndDomainLength":
+                if isinstance(c, ast.Call) and ((isinstance(c.func, ast.Attribute) and c.func.attr == "_CheckImageAndDomainLength") or (isinstance(c.func, ast.Name) and c.func.id == "_CheckImageAndDomainLength" and not chk.is_method)):
                     from ..facts import ordered_args
                     oa = ordered_args(c, chk)
                     if len(oa) < 2 or oa[0] is None or oa[1] is None:
